@@ -109,9 +109,12 @@ structure Commune where
   R : Bytes
   deriving DecidableEq, Repr
 
-/-- `Commune::verify` (default transcript, as `recover` builds the commune with `T: None`) -/
-def verify (F : Perm) (c : Commune) (J : Bytes) : Bool :=
-  (Strobe.recvMac F (macTranscript F none c.thr c.M c.R) J).2
+/-- `Commune::verify(J, K)` (default transcript, as `recover` builds the commune with `T: None`):
+the MAC must verify, and the interpolated key `K` must be the key this transcript derives (the PRF
+output that follows the MAC) -/
+def verify (F : Perm) (c : Commune) (J K : Bytes) : Bool :=
+  let r := Strobe.recvMac F (macTranscript F none c.thr c.M c.R) J
+  if r.2 then (Strobe.prf F r.1 Params.adssKeyLen).2 == K else false
 
 /-- `adss::recover` -/
 def recover (F : Perm) (shares : List Share) : Outcome Commune :=
@@ -128,6 +131,6 @@ def recover (F : Perm) (shares : List Share) : Outcome Commune :=
         let m := Strobe.recvEnc F ks s.C
         let r := Strobe.recvEnc F m.1 s.D
         let c : Commune := ⟨s.thr, m.2, r.2⟩
-        if verify F c s.J then .ok c else .err "mac"
+        if verify F c s.J (key.take Params.adssKeyLen) then .ok c else .err "mac"
 
 end StarModel.Adss
